@@ -582,7 +582,9 @@ def headers_table(ctx, rid, part):
             cases += [(b, ov) for b in blocks]
     elif part == "limits":
         long = b"X-Pad: " + b"a" * 30
-        for ov, blocks in (({"limit_request_fields": 2}, [b"A: 1", b"A: 1\r\nB: 2", b"A: 1\r\nB: 2\r\nC: 3", b"X_A: 1\r\nX_B: 2\r\nC: 3", b"A: 1\r\nB: 2\r\n"]),
+        for ov, blocks in (({"limit_request_fields": 2}, [b"A: 1", b"A: 1\r\nB: 2", b"A: 1\r\nB: 2\r\nC: 3", b"X_A: 1\r\nX_B: 2\r\nC: 3", b"A: 1\r\nB: 2\r\n",
+                                                          # kept and dropped fields count against ONE limit
+                                                          b"A: 1\r\nX_B: 2\r\nC: 3", b"X_A: 1\r\nB: 2\r\nX_C: 3", b"A: 1\r\nX_B: 2"]),
                            ({"limit_request_field_size": 30}, [b"X-Pad: " + b"a" * 20, b"X-Pad: " + b"a" * 21, b"X-Pad: " + b"a" * 22, long, b"X_Pad: " + b"a" * 30, b"X_Pad: " + b"a" * 20,
                                                               b"X-Forwarded-Proto: " + b"h" * 30, b"A: b\r\n " + b"c" * 30]),
                            ({"limit_request_field_size": 30, "permit_obsolete_folding": True}, [b"A: b\r\n " + b"c" * 10, b"A: b\r\n " + b"c" * 19, b"A: b\r\n " + b"c" * 20, b"A: b\r\n " + b"c" * 8 + b"\r\n " + b"d" * 8,
